@@ -805,6 +805,17 @@ func (x *Exec) havocMods(fr *Frame, st *State, mods *modSet, why string) {
 		}
 		st.heaps[h] = x.sc.Fresh(h+"_"+why, hs)
 	}
+	if mods.extHeaps && !mods.allHeaps {
+		for _, h := range sortedHeapNames(x.heapSorts) {
+			if mods.heaps[h] {
+				continue // already havocked above
+			}
+			if t, ok := x.heapTypes[h]; ok && isRepoType(t) {
+				continue
+			}
+			st.heaps[h] = x.sc.Fresh(h+"_"+why, x.heapSorts[h])
+		}
+	}
 	if mods.allHeaps {
 		for _, h := range sortedHeapNames(x.heapSorts) {
 			st.heaps[h] = x.sc.Fresh(h+"_"+why, x.heapSorts[h])
@@ -863,4 +874,12 @@ func clauseProps(fr *Frame, c *Clause) []string {
 		return c.Props
 	}
 	return fnProps(fr)
+}
+
+func isRepoType(t types.Type) bool {
+	if p, ok := t.(*types.Pointer); ok {
+		t = p.Elem()
+	}
+	n, ok := t.(*types.Named)
+	return ok && n.Obj().Pkg() != nil && strings.HasPrefix(n.Obj().Pkg().Path(), repoMod)
 }
